@@ -1052,6 +1052,8 @@ class Exec:
                 return list(obj.keys())
             if attr == "values":
                 return list(obj.values())
+        if is_sym(obj) and attr == "item" and not args:
+            return obj  # numpy scalar -> Python number: same mathematical value
         if isinstance(obj, (str, z3.SeqRef)):
             if attr == "startswith":
                 return z3.PrefixOf(to_z3(args[0]), to_z3(obj)) if (is_sym(obj) or is_sym(args[0])) else obj.startswith(args[0])
@@ -1302,6 +1304,17 @@ def _b_set(ex, pc, args, kw):
     raise Unsupported("set() of symbolic")
 
 
+def _b_hasattr(args):
+    obj, attr = args
+    if is_sym(obj) and attr == "item":
+        return True  # a cell of a numeric column is a numpy scalar
+    if isinstance(obj, (int, float, str, bool, list, tuple, dict, set)) and isinstance(attr, str):
+        return hasattr(obj, attr)
+    if isinstance(obj, Record) and isinstance(attr, str):
+        return attr in obj.fields
+    raise Unsupported("hasattr on this object")
+
+
 def _b_str(ex, pc, args, kw):
     if is_sym(args[0]):
         if isinstance(args[0], z3.SeqRef):
@@ -1335,6 +1348,7 @@ _BUILTINS: Dict[str, Callable] = {
     "list": _b_list,
     "set": _b_set,
     "str": _b_str,
+    "hasattr": lambda ex, pc, args, kw: _b_hasattr(args),
     "object": lambda ex, pc, args, kw: (_ for _ in ()).throw(Unsupported("object()")),
 }
 
